@@ -56,6 +56,26 @@ def generate(tier, rng):
                 for v in e.variants:
                     cls = 'msg=%d det=%d docs=%d dis=%d' % (v.msg is not None, v.det is not None, len(v.docs), v.dis)
                     c.op(e.id, 'msg %s' % hx(v.ident), cls)
+    # disabled variants that carry every attribute: all three getters must still answer None
+    for j, combo in enumerate([('m',), ('d',), ('m', 'd'), ('doc',), ('m', 'd', 'doc'), ('d', 'doc')]):
+        e = ESpec(id='c14d%d' % j, name='EnC14d%d' % j, derives=['EnumMessage'], feats=['msg'])
+        for pos in range(3):
+            v = VSpec(ident='Dv%d' % pos, kind=KINDS[(pos + j) % len(KINDS)][0], ftypes=list(KINDS[(pos + j) % len(KINDS)][1]))
+            if v.kind == 'named':
+                v.fnames, v.fdw = FIELD_NAMES[:len(v.ftypes)], [None] * len(v.ftypes)
+            if 'm' in combo:
+                v.msg = 'msg %d' % pos
+            if 'd' in combo:
+                v.det = 'det %d' % pos
+            if 'doc' in combo:
+                v.docs = [' doc %d' % pos, ' second line'][:1 + pos % 2]
+            v.dis = (pos == j % 3)
+            v.attr_layout = ['one', 'split'][(pos + j) % 2]
+            e.variants.append(v)
+        e.extra['shape'] = 'disabled-with-%s' % '+'.join(combo)
+        c.add(e)
+        for v in e.variants:
+            c.op(e.id, 'msg %s' % hx(v.ident), 'msg=%d det=%d docs=%d dis=%d' % (v.msg is not None, v.det is not None, len(v.docs), v.dis))
     return c
 
 
